@@ -120,7 +120,8 @@ def target(
     """
 
     validate_platform_board(platform, board)
-    ensure_pio()
+    if upload:
+        ensure_pio()
 
     main_file = pathlib.Path(sys.modules["__main__"].__file__)
     src = main_file.read_text(encoding="utf-8")
